@@ -6,8 +6,89 @@
 #include <cstring>
 #include <string>
 #include <vector>
+#include <map>
+#include <set>
+#include <list>
+#include <memory>
+#include <sstream>
+#include <typeinfo>
+#include <cxxabi.h>
+#include "config.h"
 #include "cryptoki.h"
 #include "access.h"
+#include "OSObject.h"
+#include "OSAttribute.h"
+#include "SessionObjectStore.h"
+#include "SessionObject.h"
+// read the protected registries of the attribute/object classes (layout is unaffected by access specifiers)
+#define protected public
+#define private public
+#include "P11Attributes.h"
+#include "P11Objects.h"
+#undef protected
+#undef private
+
+static std::string hexs(const unsigned char* p, size_t n) {
+	static const char* d = "0123456789abcdef"; std::string s;
+	for (size_t i = 0; i < n; i++) { s.push_back(d[p[i] >> 4]); s.push_back(d[p[i] & 15]); }
+	return s;
+}
+static std::string demangle(const char* n) { int st = 0; char* r = abi::__cxa_demangle(n, 0, 0, &st); std::string s = r ? r : n; free(r); return s; }
+
+static bool firstClass = true;
+// dump what `P11XObj::init` registers on a fresh object: attribute type, implementing class, check mask, fixed size, default value
+template <class T> static void dumpClass(const char* name, CK_ULONG cls, CK_ULONG keyType, CK_ULONG certType, bool hasKeyType) {
+	SessionObjectStore store;
+	SessionObject* o = store.createObject(1, 1, false);
+	T p;
+	if (hasKeyType) ((P11Object*)&p)->initialized = false;
+	p.init(o);
+	printf("%s  {\"name\": \"%s\", \"cls\": %lu, \"keyType\": %lu, \"certType\": %lu, \"attrs\": [", firstClass ? "" : ",\n", name, cls, keyType, certType);
+	firstClass = false;
+	bool first = true;
+	for (std::map<CK_ATTRIBUTE_TYPE, P11Attribute*>::iterator it = p.attributes.begin(); it != p.attributes.end(); ++it) {
+		P11Attribute* a = it->second;
+		if (a == NULL) continue;
+		std::string kind = "absent", val = "";
+		if (o->attributeExists(it->first)) {
+			OSAttribute at = o->getAttribute(it->first);
+			if (at.isBooleanAttribute()) { kind = "bool"; val = at.getBooleanValue() ? "1" : "0"; }
+			else if (at.isUnsignedLongAttribute()) { kind = "ulong"; std::ostringstream os; os << at.getUnsignedLongValue(); val = os.str(); }
+			else if (at.isByteStringAttribute()) { kind = "bytes"; val = hexs(at.getByteStringValue().const_byte_str(), at.getByteStringValue().size()); }
+			else if (at.isMechanismTypeSetAttribute()) { kind = "mechs"; std::ostringstream os; os << at.getMechanismTypeSetValue().size(); val = os.str(); }
+			else if (at.isAttributeMapAttribute()) { kind = "amap"; std::ostringstream os; os << at.getAttributeMapValue().size(); val = os.str(); }
+		}
+		printf("%s\n    {\"type\": %lu, \"cname\": \"%s\", \"checks\": %lu, \"size\": %ld, \"dkind\": \"%s\", \"dval\": \"%s\"}",
+			first ? "" : ",", (unsigned long)it->first, demangle(typeid(*a).name()).c_str(), (unsigned long)a->checks, (long)a->size, kind.c_str(), val.c_str());
+		first = false;
+	}
+	printf("]}");
+}
+template <class T> static void dumpKeyed(const char* name, CK_ULONG cls, CK_ULONG keyType) {
+	// P11GenericSecretKeyObj / P11DESSecretKeyObj take their key type through setKeyType (as newP11Object does)
+	SessionObjectStore store;
+	SessionObject* o = store.createObject(1, 1, false);
+	T p; p.setKeyType(keyType); p.init(o);
+	printf("%s  {\"name\": \"%s\", \"cls\": %lu, \"keyType\": %lu, \"certType\": 0, \"attrs\": [", firstClass ? "" : ",\n", name, cls, keyType);
+	firstClass = false;
+	bool first = true;
+	for (std::map<CK_ATTRIBUTE_TYPE, P11Attribute*>::iterator it = p.attributes.begin(); it != p.attributes.end(); ++it) {
+		P11Attribute* a = it->second; if (a == NULL) continue;
+		std::string kind = "absent", val = "";
+		if (o->attributeExists(it->first)) {
+			OSAttribute at = o->getAttribute(it->first);
+			if (at.isBooleanAttribute()) { kind = "bool"; val = at.getBooleanValue() ? "1" : "0"; }
+			else if (at.isUnsignedLongAttribute()) { kind = "ulong"; std::ostringstream os; os << at.getUnsignedLongValue(); val = os.str(); }
+			else if (at.isByteStringAttribute()) { kind = "bytes"; val = hexs(at.getByteStringValue().const_byte_str(), at.getByteStringValue().size()); }
+			else if (at.isMechanismTypeSetAttribute()) { kind = "mechs"; std::ostringstream os; os << at.getMechanismTypeSetValue().size(); val = os.str(); }
+			else if (at.isAttributeMapAttribute()) { kind = "amap"; std::ostringstream os; os << at.getAttributeMapValue().size(); val = os.str(); }
+		}
+		printf("%s\n    {\"type\": %lu, \"cname\": \"%s\", \"checks\": %lu, \"size\": %ld, \"dkind\": \"%s\", \"dval\": \"%s\"}",
+			first ? "" : ",", (unsigned long)it->first, demangle(typeid(*a).name()).c_str(), (unsigned long)a->checks, (long)a->size, kind.c_str(), val.c_str());
+		first = false;
+	}
+	printf("]}");
+}
 
 int main() {
 	printf("{\n");
@@ -24,6 +105,31 @@ int main() {
 		}
 		printf("],\n");
 	}
+	// ---- object class tables (P11Objects.cpp init chains + P11Attributes.h constructors), by execution ----
+	printf(" \"classes\": [\n");
+	dumpClass<P11DataObj>("DATA", CKO_DATA, 0, 0, false);
+	dumpClass<P11X509CertificateObj>("CERT_X509", CKO_CERTIFICATE, 0, CKC_X_509, false);
+	dumpClass<P11OpenPGPPublicKeyObj>("CERT_OPENPGP", CKO_CERTIFICATE, 0, CKC_OPENPGP, false);
+	dumpClass<P11RSAPublicKeyObj>("PUB_RSA", CKO_PUBLIC_KEY, CKK_RSA, 0, false);
+	dumpClass<P11DSAPublicKeyObj>("PUB_DSA", CKO_PUBLIC_KEY, CKK_DSA, 0, false);
+	dumpClass<P11ECPublicKeyObj>("PUB_EC", CKO_PUBLIC_KEY, CKK_EC, 0, false);
+	dumpClass<P11DHPublicKeyObj>("PUB_DH", CKO_PUBLIC_KEY, CKK_DH, 0, false);
+	dumpClass<P11EDPublicKeyObj>("PUB_ED", CKO_PUBLIC_KEY, CKK_EC_EDWARDS, 0, false);
+	dumpClass<P11RSAPrivateKeyObj>("PRIV_RSA", CKO_PRIVATE_KEY, CKK_RSA, 0, false);
+	dumpClass<P11DSAPrivateKeyObj>("PRIV_DSA", CKO_PRIVATE_KEY, CKK_DSA, 0, false);
+	dumpClass<P11ECPrivateKeyObj>("PRIV_EC", CKO_PRIVATE_KEY, CKK_EC, 0, false);
+	dumpClass<P11DHPrivateKeyObj>("PRIV_DH", CKO_PRIVATE_KEY, CKK_DH, 0, false);
+	dumpClass<P11EDPrivateKeyObj>("PRIV_ED", CKO_PRIVATE_KEY, CKK_EC_EDWARDS, 0, false);
+	dumpClass<P11AESSecretKeyObj>("SECRET_AES", CKO_SECRET_KEY, CKK_AES, 0, false);
+	{ const CK_ULONG g[7] = { CKK_GENERIC_SECRET, CKK_MD5_HMAC, CKK_SHA_1_HMAC, CKK_SHA224_HMAC, CKK_SHA256_HMAC, CKK_SHA384_HMAC, CKK_SHA512_HMAC };
+	  const char* gn[7] = { "SECRET_GENERIC", "SECRET_MD5_HMAC", "SECRET_SHA1_HMAC", "SECRET_SHA224_HMAC", "SECRET_SHA256_HMAC", "SECRET_SHA384_HMAC", "SECRET_SHA512_HMAC" };
+	  for (int i = 0; i < 7; i++) dumpKeyed<P11GenericSecretKeyObj>(gn[i], CKO_SECRET_KEY, g[i]); }
+	dumpKeyed<P11DESSecretKeyObj>("SECRET_DES", CKO_SECRET_KEY, CKK_DES);
+	dumpKeyed<P11DESSecretKeyObj>("SECRET_DES2", CKO_SECRET_KEY, CKK_DES2);
+	dumpKeyed<P11DESSecretKeyObj>("SECRET_DES3", CKO_SECRET_KEY, CKK_DES3);
+	dumpClass<P11DSADomainObj>("DOMAIN_DSA", CKO_DOMAIN_PARAMETERS, CKK_DSA, 0, false);
+	dumpClass<P11DHDomainObj>("DOMAIN_DH", CKO_DOMAIN_PARAMETERS, CKK_DH, 0, false);
+	printf("\n ],\n");
 	printf(" \"end\": 0\n}\n");
 	return 0;
 }
